@@ -92,6 +92,53 @@ class IntervalTable(object):
         return True
 
 
+class IntervalSeq(object):
+    """Read-only stand-in for a look-up table organised as a big LIST indexed by the status code: run-length rows, indexing
+    by interval scan, IndexError beyond the real length (the length is part of the behaviour), negative indices as Python."""
+
+    def __init__(self, real):
+        self.n = len(real)
+        rows = []
+        for i, v in enumerate(real):
+            if rows and rows[-1][2] is v:
+                rows[-1][1] = i
+            else:
+                rows.append([i, i, v])
+        self.rows = [tuple(r) for r in rows]
+
+    def __len__(self):
+        return self.n
+
+    def __getitem__(self, i):
+        if i < 0:
+            i = i + self.n
+        if not (0 <= i < self.n):
+            raise IndexError('list index out of range')
+        for lo, hi, v in self.rows:
+            if lo <= i <= hi:
+                return v
+        raise IndexError('list index out of range')
+
+    def get(self, i, default=None):
+        raise AttributeError("'list' object has no attribute 'get'")
+
+    def __bool__(self):
+        return self.n > 0
+
+    def boundaries_agree(self, real):
+        if len(real) != self.n:
+            return False
+        for lo, hi, v in self.rows:
+            for i in (lo - 1, lo, hi, hi + 1, (lo + hi) // 2):
+                if 0 <= i < self.n and self[i] is not real[i]:
+                    return False
+        return True
+
+
+def _big_list(x):
+    return type(x) is list and len(x) > 256
+
+
 REAL = {}           # name -> the module's own table (a real dict), as import left it
 WRAPPED = {}        # name -> its stand-in
 UNWRAPPED = []      # big tables whose organisation the stand-in does not understand (left as they are: the solver
@@ -102,7 +149,26 @@ def _install():
     if api.REPLAY or REAL:
         return
     for name, v in list(vars(statuses).items()):
-        if type(v) is dict and not name.startswith('__') and (len(v) > 256 or any(
+        if name.startswith('__'):
+            continue
+        if _big_list(v):
+            t = IntervalSeq(v)
+            if not t.boundaries_agree(v):
+                UNWRAPPED.append(name)
+                continue
+            REAL[name] = v
+            WRAPPED[name] = t
+            setattr(statuses, name, t)
+        elif type(v) is dict and v and all(_big_list(x) for x in v.values()):
+            # one big list per command field
+            t = dict((k, IntervalSeq(x)) for k, x in v.items())
+            if not all(t[k].boundaries_agree(x) for k, x in v.items()):
+                UNWRAPPED.append(name)
+                continue
+            REAL[name] = v
+            WRAPPED[name] = t
+            setattr(statuses, name, t)
+        elif type(v) is dict and (len(v) > 256 or any(
                 isinstance(x, dict) and len(x) > 256 for x in v.values())):
             try:
                 t = IntervalTable(v)
@@ -207,12 +273,20 @@ def registered_later(v: int) -> bool:
         if not api.REPLAY:
             # the registration itself runs concretely on the module's own tables (copies of what import left)
             for name, real in REAL.items():
-                setattr(statuses, name, dict((k, dict(x) if isinstance(x, dict) else x) for k, x in real.items()))
+                setattr(statuses, name, list(real) if type(real) is list else
+                        dict((k, dict(x) if isinstance(x, dict) else (list(x) if type(x) is list else x))
+                             for k, x in real.items()))
         snap = None if not api.REPLAY else _replay_snapshot()
         statuses.add_status(code, typ, 'registered later', end, dm.MESSAGE_TYPE[ccf] if ccf else None)
         if not api.REPLAY:
             for name in REAL:
-                setattr(statuses, name, IntervalTable(getattr(statuses, name)))
+                cur = getattr(statuses, name)
+                if _big_list(cur):
+                    setattr(statuses, name, IntervalSeq(cur))
+                elif type(cur) is dict and cur and all(_big_list(x) for x in cur.values()):
+                    setattr(statuses, name, dict((k, IntervalSeq(x)) for k, x in cur.items()))
+                else:
+                    setattr(statuses, name, IntervalTable(cur))
     try:
         cf = fam('cmd')
         got, styp = classify(v, cf)
